@@ -982,9 +982,7 @@ fn drive(seed: u64, tier: &str, parts: &str, emit_all: &mut dyn FnMut(&Value)) {
     for i in 0..n_rt {
         let v = if i % 2 == 0 { 6 } else { 7 };
         let mut case = g.packet(v);
-        if g.rng.gen_bool(0.2) {
-            case["rcap"] = Value::from(g.cap());
-        }
+        case["rcap"] = Value::from(g.cap());
         emit_if(c05, emit_all, &case);
         if valid.len() < 400 {
             if let Some(b) = written(&case) {
@@ -1008,6 +1006,25 @@ fn drive(seed: u64, tier: &str, parts: &str, emit_all: &mut dyn FnMut(&Value)) {
                 emit_if(c05, emit_all, &json!({"k": "rt", "v": 6, "hascl": false, "cl": [], "p": {"t": "connless", "data": bj(c)}}));
             } else {
                 emit_if(c05, emit_all, &json!({"k": "rt", "v": 7, "hascl": false, "cl": [], "p": {"t": "connless", "token": [1, 2, 3, 4], "rtoken": [5, 6, 7, 8], "data": bj(c)}}));
+            }
+        }
+        // payload lengths max-3 .. max for each content class (all-zero, two-symbol, incompressible),
+        // token present / absent, each read with a scratch buffer of exactly the documented minimum
+        // (1400), one byte more, and a generous one: the reader must not depend on the scratch size
+        let toks: &[&[u8]] = if v == 6 { &[&[], &[9, 8, 7, 6]] } else { &[&[9, 8, 7, 6]] };
+        for tok in toks {
+            let max = if v == 6 { 1397 - tok.len() } else { 1393 };
+            for n in (max - 3)..=max {
+                for cls in 0..3 {
+                    let data: Vec<u8> = match cls {
+                        0 => vec![0u8; n],
+                        1 => (0..n).map(|i| if (i * 7 + i / 5) % 3 == 0 { 1 } else { 0 }).collect(),
+                        _ => (0..n).map(|_| g.rng.gen::<u8>()).collect(),
+                    };
+                    for rcap in [1400usize, 1401, 2048] {
+                        emit_if(c05, emit_all, &json!({"k": "rt", "v": v, "rcap": rcap, "hascl": false, "cl": [], "p": {"t": "chunks", "ack": 512, "token": bj(tok), "rr": false, "nc": 3, "data": bj(&data)}}));
+                    }
+                }
             }
         }
         // small write buffers: the writer must refuse with a capacity error, not overrun
